@@ -86,6 +86,9 @@ class ModuleInstance(abc.ABC):
 
     def memory_grow(self, memory_idx: int, amount: int) -> int:
         """Grow memory and return the old size"""
+        if amount < 0:
+            # When i32 is large, it's signed value is negative.
+            return -1
         memory = self._memories[memory_idx]
         return memory.grow(amount)
 
